@@ -11,6 +11,8 @@ import WellenModel.Model.Detect
 import WellenModel.Model.Py
 import WellenModel.Model.Serde
 import WellenModel.Model.VcdHeaderDump
+import WellenModel.Model.Ghw
+import WellenModel.Model.GhwSpec
 /-
 `wmdriver`: reads one request per line on stdin, answers `<model reply>\t<spec reply>` per line.
 Imports only the import-free `Model` modules (the same definitions the theorems are about).
@@ -517,6 +519,10 @@ def handle (line : String) : String × String :=
   | ["serdeh", hex] => handleSerde "serdeh" hex
   | ["serdes", hex] => handleSerde "serdes" hex
   | ["serdert", _] => ("same", "same")
+  | ["ghw", design, hex] =>
+    match hexBytes? hex with
+    | some bs => (Wellen.Ghw.load bs, Wellen.GhwSpec.spec design)
+    | none => ("bad-request", "-")
   | ["vcdhdr", opts, decls, hex] => Wellen.VcdHeader.handle opts decls hex
   | ["pyq", tt, dump] => handlePyq tt dump
   | ["detect", hex] => handleDetect hex
